@@ -49,6 +49,10 @@ pub(crate) fn run() -> Result<(), Error> {
             Ok(())
         })
         .log_override(|_| {})
+        // This is a query: nothing is written to the state.  (A write in our
+        // deferred transaction fails with "database is locked" as soon as
+        // anyone else has committed since we started reading.)
+        .forget_target(|_, _| Ok(()))
         .build();
     let mut targets: Vec<File> = Vec::new();
     for resf in Files::list(&mut ptx) {
